@@ -100,6 +100,9 @@ def parse_type(s: str) -> Ty:
             return Ty('seq', elem=args()[0], skind='tuple')
         if name == 'set':
             return Ty('seq', elem=args()[0], skind='set')
+        if name == 'dict':
+            kv = args()
+            return Ty('seq', elem=Ty('tuple', items=kv), skind='dict')
         if name == 'tuple':
             return Ty('tuple', items=args())
         if name == 'rec':
